@@ -7,29 +7,54 @@ for d in sorted(glob.glob('/verif/seeded/C*-*')):
     sid = os.path.basename(d)
     files = sorted(set(re.findall(r'^\+\+\+ b/(\S+)', open(d + '/patch.diff').read(), re.M)))
     res = '/verif/seeded/_results/%s.txt' % sid
-    caught, props, own, first = 'not run', '', '', ''
+    cres = '/verif/seeded/_results/%s.conform.txt' % sid
+    caught, props, own, first, how = 'not run', '', '', '', ''
+    fl, nb, ran, note = [], 0, False, ''
     if os.path.exists(res):
         lines = open(res).read().splitlines()
-        m = re.match(r'.*failed=(\d+) broken=(\d+) caught_by_props=\[([^\]]*)\] own_property=(\w+)', lines[0]) if lines else None
+        m = re.match(r'.*failed=(\d+) broken=(\d+)', lines[0]) if lines else None
         if m:
-            nf, nb = int(m.group(1)), int(m.group(2))
-            props, own = m.group(3), m.group(4)
-            caught = 'yes' if nf > 0 else ('contract out of date' if nb > 0 else 'no')
+            ran = True
+            nb = int(m.group(2))
             fl = [l for l in lines[1:] if l.startswith('FAILED')]
-            if fl:
-                first = re.sub(r'^FAILED\[[^\]]*\] ', '', fl[0]).split(' at ')[0]
         elif lines:
-            caught = lines[0].split(': ', 1)[-1]
+            note = lines[0].split(': ', 1)[-1]
+    if os.path.exists(cres) and (not os.path.exists(res) or os.path.getmtime(cres) > os.path.getmtime(res)):
+        # a later harness-only run replaces the harness lines of the full run
+        lines = open(cres).read().splitlines()
+        if lines and re.match(r'.*failed=(\d+)', lines[0]):
+            fl = [l for l in fl if '(bounded harness' not in l] + [l for l in lines[1:] if l.startswith('FAILED')]
+    if ran:
+        pset = set()
+        for l in fl:
+            m = re.match(r'FAILED\[([^\]]*)\]', l)
+            if m:
+                pset.update(x for x in m.group(1).split(',') if x)
+        props = ','.join(sorted(pset))
+        own = 'yes' if sid.split('-')[0] in pset else 'no'
+        caught = 'yes' if fl else ('contract out of date' if nb > 0 else 'no')
+        proof = [l for l in fl if '(bounded harness' not in l]
+        bnd = [l for l in fl if '(bounded harness' in l]
+        how = 'proof obligation' if proof and not bnd else ('bounded harness' if bnd and not proof else ('both' if fl else ''))
+        if fl:
+            f0 = (proof or bnd)[0]
+            first = re.sub(r'^FAILED\[[^\]]*\] ', '', f0).split(' at ')[0].split('): ')[0]
+            if '(bounded harness' in first and not first.endswith(')'):
+                first += ')'
+    elif note:
+        caught = note
     layer = 'Go'
     if any('assembler_regabi' in f or '_text_amd64' in f or 'generic_regabi' in f for f in files):
         layer = 'emitter/native (E/N)'
-    rows.append((sid, ', '.join(files), layer, caught, own, props, first))
-out = ['| seed | file(s) changed | layer | caught | by own property | properties of failing obligations | first failing obligation |', '|---|---|---|---|---|---|---|']
+    rows.append((sid, ', '.join(files), layer, caught, own, props, first, how))
+out = ['| seed | file(s) changed | layer | caught | by own property | properties of failing obligations | first failing obligation | caught by |', '|---|---|---|---|---|---|---|---|']
 for r in rows:
-    out.append('| %s | %s | %s | %s | %s | %s | %s |' % tuple(x.replace('|', '\\|') for x in r))
+    out.append('| %s | %s | %s | %s | %s | %s | %s | %s |' % tuple(x.replace('|', '\\|') for x in r))
 n = len(rows); c = sum(1 for r in rows if r[3] == 'yes'); go = [r for r in rows if r[2] == 'Go']; cg = sum(1 for r in go if r[3] == 'yes')
 own = sum(1 for r in rows if r[4] == 'yes')
-summary = '\n%d of %d seeded changes are reported as violations (%d by an obligation of the seed\'s own property); of the %d changes to ordinary Go code %d are caught; of the %d changes inside the assemblers / native byte arrays %d.\n' % (c, n, own, len(go), cg, n - len(go), c - cg)
+byproof = sum(1 for r in rows if r[7] in ('proof obligation', 'both'))
+onlyb = sum(1 for r in rows if r[7] == 'bounded harness')
+summary = '\n%d of %d seeded changes are reported as violations (%d by a check of the seed\'s own property): %d by a failing proof obligation, %d more only by a bounded harness (a failing input on the real code, not a proof). Of the %d changes to ordinary Go code %d are caught; of the %d changes inside the assemblers / native byte arrays %d (all of these by the bounded harnesses: no contract reaches emitted code).\n' % (c, n, own, byproof, onlyb, len(go), cg, n - len(go), c - cg)
 md = '\n'.join(out) + '\n' + summary
 open('/verif/seeded/MATRIX.md', 'w').write(md)
 p = '/verif/DESIGN.md'
